@@ -39,8 +39,10 @@ RULE = ('kinds: one obligation per translated kernel (19 kernels of the 12 .pyx 
         'directed cycles, several components, nnz < n, bool/int/explicit-zero data, unsorted indices, rectangular), '
         'structured random graphs n <= 12, seeds with labels >= n and oscillating configurations, tolerance-0 streams of the '
         'modularity estimators, a middle range (random graphs with 13..100 nodes, disjoint directed cycles with long sweep '
-        'periods, transitive tournaments); scaling probe: CPU time of every stream algorithm on sparse graphs of 500 .. 32 000 '
-        '(quick) / 128 000 (thorough) nodes, growth ratio for a factor 4 in size against the declared class of the algorithm; '
+        'periods, transitive tournaments), are_isomorphic on pairs of graphs; scaling probe: CPU time of every stream algorithm '
+        'on sparse graphs whose size doubles from 500 nodes until a run costs 0.5 s (pairs up to 32 000 nodes quick / 512 000 '
+        'thorough), growth of the cost (per operator application for the ARPACK-based entries) against the declared class of the '
+        'algorithm, an excess reported only when three re-measurements confirm it on a quiet machine; '
         'a case is non-trivial when the graph has at least one stored entry; distinct = distinct (algorithm, parameters, '
         'graph, build flavour)')
 ASSUMPTIONS = [
@@ -331,10 +333,11 @@ WALL_FACTOR = 6
 
 
 class Worker:
-    def __init__(self, root, tag, monitor=False, threads=2):
+    def __init__(self, root, tag, monitor=False, threads=2, ops=False):
         self.root = root
         self.monitor = monitor
         self.threads = threads
+        self.ops = ops
         self.errpath = os.path.join(C17_CACHE, 'w_%d_%s.err' % (os.getpid(), tag))
         self.proc = None
         self.buf = b''
@@ -349,7 +352,7 @@ class Worker:
             env[v] = str(self.threads)
         env['PYTHONFAULTHANDLER'] = '1'
         self.err = open(self.errpath, 'wb')
-        cmd = [overlay.PY, '-u', WORKER, self.root] + (['monitor'] if self.monitor else [])
+        cmd = [overlay.PY, '-u', WORKER, self.root] + (['monitor'] if self.monitor else []) + (['ops'] if self.ops else [])
         self.proc = subprocess.Popen(cmd, stdin=subprocess.PIPE, stdout=subprocess.PIPE, stderr=self.err, env=env)
         self.buf = b''
         r = self._read(120)
@@ -1207,87 +1210,117 @@ def stream(ctx, flavour, quick, monitor):
 
 
 # ---- 'within time proportionate to the input': growth of the CPU time, per algorithm, against a declared class ---------
-# (review 2, H3: the first probe had a 1 s floor under which nothing was tested, a ratio that admitted cubic growth and
-#  stopped at 2000 nodes)
-# The sizes are 125 * 4^k.  Tested: the ratio t(4n)/t(n) of the CPU time of the two largest sizes run, whenever t(4n) is
-# measurable.  Allowed ratio for a factor 4 in size:
-#   'lin'  (n + m up to log factors)                     10   (exponent 1.66; measured on this tree 3.5 .. 7: n log n, caches)
-#   'quad' (n * m: one traversal per node, pairwise forces; iterative eigen-solvers, whose number of iterations is not a
-#           function of the size alone; break_cycles, which copies its path at every step: finding F27)
-#                                                        40   (exponent 2.66; measured 13 .. 22 for the n * m ones)
-# A quadratic 'lin' algorithm shows 14 .. 19 (the by-value vectors of finding F28 did), a cubic 'quad' one 64.
-SCALING_RATIO = {'lin': 10.0, 'quad': 40.0}
-SCALING_CLASS = {'Betweenness': 'quad', 'Closeness': 'quad', 'Spring': 'quad', 'ForceAtlas': 'quad',
-                 'Spectral': 'quad', 'SVD': 'quad', 'GSVD': 'quad', 'PCA': 'quad', 'break_cycles': 'quad',
-                 'HITS': 'quad', 'NNLinker': 'quad'}      # HITS: Lanczos SVD; NNLinker: brute-force similarities of every node with every node, by design
-# not probed: get_cycles (its output is exponential on these families); break_cycles on the directed family (finding F27,
-# exponential: it has its own witnesses)
+# History: the first probe had a 1 s floor under which nothing was tested and stopped at 2000 nodes (review 2, H3); the
+# second trusted baselines of 0.05 s and reported a x57 of GSVD that was ARPACK needing 1638 operator applications on one
+# instance and 125 on the next size (thorough seed 62: a false alarm).  Rules now:
+#  * sizes double from 500 nodes until a run costs SCALING_BASE_S of CPU (single-threaded worker): that run is the baseline;
+#    no baseline within the size limit = not tested (counted);
+#  * class 'lin' (n + m up to log factors): t(4n) / t(n) <= 10 (exponent 1.66; measured 3.5 .. 7.7);
+#    class 'quad' (n * m: one traversal per node, pairwise forces, brute-force similarities, break_cycles' path copies:
+#    finding F27): t(2n) / t(n) <= 6.3 (exponent 2.66; measured 3.5 .. 4.8);
+#    class 'eig' (ARPACK behind it: Spectral, SVD, GSVD, PCA, HITS): the number of operator applications ARPACK asks for
+#    depends on the spectrum of the instance, not on its size (125 / 1638 / 125 for GSVD on 8 000 / 32 000 / 128 000 nodes);
+#    judged is the CPU time PER APPLICATION (counted in the worker), as 'lin'; the number of applications is not judged;
+#  * an excess is a *suspect*.  It is reported as a failing input only if it holds (a) on a second measurement of the same
+#    graphs, (b) on another graph of the family (other seed) at the same sizes, (c) on a second pair of sizes (2n -> 8n,
+#    resp. 2n -> 4n; a run over the CPU limit counts with the limit as its time) and (d) the machine is quiet (1-minute load
+#    below the number of cores).  (a)-(c) hold but the machine is loaded: tool failure (no verdict).  Otherwise: a note.
+SCALING_CLASS = {'Betweenness': 'quad', 'Closeness': 'quad', 'Spring': 'quad', 'ForceAtlas': 'quad', 'break_cycles': 'quad',
+                 'NNLinker': 'quad',
+                 'Spectral': 'eig', 'SVD': 'eig', 'GSVD': 'eig', 'PCA': 'eig', 'HITS': 'eig'}
+SCALING_SPAN = {'lin': 4, 'eig': 4, 'quad': 2}
+SCALING_RATIO = {'lin': 10.0, 'eig': 10.0, 'quad': 6.3}
+# not probed: get_cycles (its output is exponential on these families); break_cycles on the directed family (finding F27)
 SCALING_ALGOS = [a for a in ALL_ALGOS if a not in ('get_cycles',)]
 SCALING_DIRECTED = ['Propagation', 'PropagationClustering', 'PageRank', 'Louvain', 'Leiden', 'Paris', 'KCenters', 'Katz',
                     'get_distances', 'get_shortest_path', 'breadth_first_search', 'get_dag', 'get_dag_index', 'is_acyclic',
                     'get_connected_components', 'Betweenness', 'Closeness', 'DiffusionClassifier', 'Diffusion', 'Dirichlet',
                     'color_weisfeiler_lehman', 'HITS', 'LouvainHierarchy', 'count_triangles', 'get_core_decomposition',
                     'SVD', 'Spectral']
-SCALING_MEASURABLE_S = 0.2      # the ratio is tested whenever the larger run of the pair takes at least this much CPU
-SCALING_TARGET_S = 0.4          # sizes grow (x4) until one run takes this much
+SCALING_BASE_S = 0.5            # CPU seconds the smaller run of a judged pair must cost
 SCALING_START = 500
-SCALING_LIMIT_S = 60            # CPU seconds allowed for one run of the probe
+SCALING_LIMIT_S = 90            # CPU seconds allowed for one run of the probe
+SCALING_CONFIRM_LIMIT_S = 240   # ... for the runs that confirm a suspect
 
 
 def scaling_nmax(ctx):
-    return 32000 if ctx.quick else 128000
+    """largest size of a judged pair"""
+    return 32000 if ctx.quick else 512000
 
 
 def probe_one(w, algo, family, seed, nmax):
-    """Sizes 500, 2000, 8000, ... until a run takes SCALING_TARGET_S of CPU or the size reaches nmax (125 when the run on
-    500 nodes already takes that long); a ratio above the class is measured again (minimum of the two measurements of each
-    size) before it counts.  Returns (row {n: cpu}, failing (task, answer) or None)."""
-    row = {}
+    """-> (row, verdict) with row = {n: judged value, ...} and verdict None | 'untested' | ('suspect' | 'confirmed', text) |
+    ('failed', task, answer) for a crash."""
+    cls = SCALING_CLASS.get(algo, 'lin')
+    span, allowed = SCALING_SPAN[cls], SCALING_RATIO[cls]
+    row = {'class': cls}
 
-    def task(n):
-        return {'id': 0, 'algo': algo, 'graph': {'gen': family, 'n': n, 'seed': seed, 'name': '%s%d' % (family, n), 'm': n},
+    def task(n, sd):
+        return {'id': 0, 'algo': algo, 'graph': {'gen': family, 'n': n, 'seed': sd, 'name': '%s%d' % (family, n), 'm': n},
                 'extra': {}, 'flavour': 'plain'}
 
-    def run(n):
-        r = w.run(task(n), SCALING_LIMIT_S)
+    class Dead(Exception):
+        pass
+
+    def run(n, sd=seed, limit=SCALING_LIMIT_S):
+        """(cpu, judged value); a run over the limit counts with the limit"""
+        r = w.run(task(n, sd), limit)
+        if r.get('status') == 'timeout':
+            return float(limit), float(limit)
         if r.get('status') not in ('ok', 'exc'):
-            return (task(n), r)
+            raise Dead((task(n, sd), r))
         if r.get('status') == 'exc':
             row['exc'] = r.get('exc')
-        row[n] = r['cpu'] if n not in row else min(row[n], r['cpu'])
-        return row[n]
-    n = SCALING_START
-    x = run(n)
-    if isinstance(x, tuple):
-        return row, x
-    if x >= SCALING_TARGET_S:
-        pair = (n // 4, n)
-        y = run(n // 4)
-        if isinstance(y, tuple):
-            return row, y
-    else:
-        pair = None
-        while x < SCALING_TARGET_S and n * 4 <= nmax:
-            n *= 4
-            x = run(n)
-            if isinstance(x, tuple):
-                return row, x
-            pair = (n // 4, n)
-    if pair and row[pair[1]] >= SCALING_MEASURABLE_S and row[pair[0]] > 0 and \
-            row[pair[1]] / row[pair[0]] > SCALING_RATIO[SCALING_CLASS.get(algo, 'lin')]:
-        for m in pair:          # suspect: measure both sizes once more, keep the minima
-            y = run(m)
-            if isinstance(y, tuple):
-                return row, y
-        row['remeasured'] = True
-    return row, None
+        cpu = r['cpu']
+        val = cpu / max(1, r.get('ops') or 1) if cls == 'eig' else cpu
+        return cpu, val
+
+    def ratio(n, sd=seed, limit=SCALING_LIMIT_S, store=None):
+        c1, v1 = run(n, sd, limit)
+        c2, v2 = run(span * n, sd, limit)
+        if store is not None:
+            store['%d' % n] = round(v1, 6)
+            store['%d' % (span * n)] = round(v2, 6)
+        return (v2 / v1) if v1 > 0 else 0.0
+    try:
+        n = SCALING_START
+        while True:
+            cpu, val = run(n)
+            row[n] = round(val, 6)
+            if cpu >= SCALING_BASE_S or span * 2 * n > nmax:
+                break
+            n *= 2
+        if cpu < SCALING_BASE_S:
+            return row, 'untested'
+        c2, v2 = run(span * n)
+        row[span * n] = round(v2, 6)
+        r1 = v2 / val if val > 0 else 0.0
+        row['ratio'] = round(r1, 2)
+        row['pair'] = [n, span * n]
+        if r1 <= allowed:
+            return row, None
+        # suspect: (a) same graphs again, (b) another graph of the family, (c) a second pair of sizes
+        conf = {}
+        conf['again'] = round(ratio(n, limit=SCALING_CONFIRM_LIMIT_S), 2)
+        conf['other_seed'] = round(ratio(n, sd=seed + 7919, limit=SCALING_CONFIRM_LIMIT_S), 2)
+        conf['second_pair'] = round(ratio(2 * n, limit=SCALING_CONFIRM_LIMIT_S), 2)
+        conf['loadavg'] = round(os.getloadavg()[0], 1)
+        row['confirmations'] = conf
+        text = 'cost x%.1f from %d to %d nodes (allowed x%.1f for x%d nodes, class %s); again x%.1f, other graph x%.1f, ' \
+               '%d -> %d nodes x%.1f; load %.1f on %d cores' % (r1, n, span * n, allowed, span, cls, conf['again'],
+                                                                 conf['other_seed'], 2 * n, 2 * n * span, conf['second_pair'],
+                                                                 conf['loadavg'], os.cpu_count() or 1)
+        if min(conf['again'], conf['other_seed'], conf['second_pair']) > allowed:
+            return row, ('confirmed', text)
+        return row, ('suspect', text)
+    except Dead as e:
+        return row, ('failed',) + e.args[0]
 
 
 def scaling_probe(ctx, algos=None, families=None):
     """CPU time of every stream algorithm on sparse graphs (average degree 4) of growing size: an undirected family (ring +
-    chords) for all of them, a directed family (directed ring + random arcs) for those that treat directed inputs in their
-    own way.  A ratio t(2n)/t(n) above the declared class of the algorithm, or a run over the CPU limit, is a failing
-    input of kind 'scaling' / 'timeout'."""
+    random chords: expander-like, no shrinking spectral gap) for all of them, a directed family (directed ring + random
+    arcs) for those that treat directed inputs in their own way.  See the rules above."""
     rng = ctx.rng
     seed = rng.randrange(10 ** 6)
     jobs = []
@@ -1304,21 +1337,20 @@ def scaling_probe(ctx, algos=None, families=None):
     q = _queue.Queue()
     for j in jobs:
         q.put(j)
-    table, fails, lock = {}, [], threading.Lock()
+    table, verdicts, lock = {}, {}, threading.Lock()
 
     def loop(k):
-        w = Worker(ctx.overlay_root, 'z%d' % k, False, threads=1)
+        w = Worker(ctx.overlay_root, 'z%d' % k, False, threads=1, ops=True)
         try:
             while True:
                 try:
                     algo, fam = q.get_nowait()
                 except _queue.Empty:
                     return
-                row, bad = probe_one(w, algo, fam, seed, nmax)
+                row, verdict = probe_one(w, algo, fam, seed, nmax)
                 with lock:
                     table['%s/%s' % (algo, fam)] = row
-                    if bad is not None:
-                        fails.append(bad)
+                    verdicts['%s/%s' % (algo, fam)] = verdict
         finally:
             w.stop()
     ths = [threading.Thread(target=loop, args=(k,)) for k in range(8)]
@@ -1326,35 +1358,38 @@ def scaling_probe(ctx, algos=None, families=None):
         th.start()
     for th in ths:
         th.join()
-    ctx.extra.setdefault('scaling_cpu_s', {}).update({k: {str(n): v for n, v in row.items()} for k, row in table.items()})
-    if fails:
-        ts = [dict(t, id=i) for i, (t, r) in enumerate(fails)]
-        judge(ctx, ts, {i: dict(r, id=i, confirmed=True) for i, (t, r) in enumerate(fails)}, 'plain')
-    tested = 0
-    for key, row in sorted(table.items()):
+    ctx.extra.setdefault('scaling', {}).update({k: {str(n): v for n, v in row.items()} for k, row in table.items()})
+    loaded = []
+    for key in sorted(table):
         algo, fam = key.split('/')
-        sizes = sorted(n for n in row if isinstance(n, int) and row[n] is not None)
-        ctx.case(('scaling', key, tuple(sizes)), True)
-        why = None
-        if len(sizes) >= 2 and row[sizes[-1]] >= SCALING_MEASURABLE_S and row[sizes[-2]] > 0:
-            lo, big = sizes[-2], sizes[-1]
-            tested += 1
-            ratio = row[big] / row[lo]
-            cls = SCALING_CLASS.get(algo, 'lin')
-            ctx.count('scaling:ratio-tested')
-            if ratio > SCALING_RATIO[cls] * (big / lo / 4.0):
-                why = 'cpu time x%.1f from %d to %d nodes (%.2f s -> %.2f s, measured twice), allowed x%.0f (class %s)' % (
-                    ratio, lo, big, row[lo], row[big], SCALING_RATIO[cls], cls)
-        ctx.count('scaling:' + ('ok' if why is None else 'SUPERLINEAR'))
-        if why is not None:
+        row, verdict = table[key], verdicts[key]
+        ctx.case(('scaling', key, row.get('ratio')), True)
+        if verdict is None:
+            ctx.count('scaling:ok')
+        elif verdict == 'untested':
+            ctx.count('scaling:untested(no run of %.1f s within the size limit)' % SCALING_BASE_S)
+        elif verdict[0] == 'failed':
+            t, r = verdict[1], verdict[2]
+            judge(ctx, [dict(t, id=0)], {0: dict(r, id=0, confirmed=True)}, 'plain')
+        elif verdict[0] == 'suspect':
+            ctx.count('scaling:suspect-not-confirmed')
+            ctx.note('scaling probe, not confirmed by the re-measurements (no verdict): %s on %s: %s' % (algo, fam, verdict[1]))
+        else:
+            big = row['pair'][1]
             t = {'algo': algo, 'graph': {'gen': fam, 'n': big, 'seed': seed, 'name': '%s%d' % (fam, big), 'm': big},
                  'extra': {}, 'flavour': 'plain'}
-            if known_oracle()(t, 'scaling'):
-                ctx.count('scaling:known')
-            ctx.spec_fail(task_sig(t, 'scaling'), {'task': t},
-                          {'what': 'time not proportionate to the input', 'why': why,
-                           'cpu_s': {str(n): row[n] for n in sizes}})
-    ctx.extra['scaling_pairs_tested'] = ctx.extra.get('scaling_pairs_tested', 0) + tested
+            quiet = row['confirmations']['loadavg'] < (os.cpu_count() or 1)
+            if quiet or known_oracle()(t, 'scaling'):
+                ctx.count('scaling:SUPERLINEAR')
+                ctx.spec_fail(task_sig(t, 'scaling'), {'task': t},
+                              {'what': 'time not proportionate to the input', 'why': verdict[1],
+                               'values': {str(n): v for n, v in row.items()}})
+            else:
+                ctx.count('scaling:confirmed-on-a-loaded-machine')
+                loaded.append('%s on %s: %s' % (algo, fam, verdict[1]))
+    ctx.extra['scaling_pairs_tested'] = ctx.extra.get('scaling_pairs_tested', 0) + sum(1 for r in table.values() if 'ratio' in r)
+    if loaded:
+        _STATE.setdefault('loaded', []).extend(loaded)
 
 
 def run_corpus(ctx):
@@ -1413,6 +1448,9 @@ def raise_if_starved():
     also in replay and search)."""
     if _STATE.get('starved'):
         raise ToolFailure('workers were starved of CPU (or blocked without using CPU): %s' % _STATE['starved'][:3])
+    if _STATE.get('loaded'):
+        raise ToolFailure('scaling probe: an excess was confirmed by every re-measurement but the machine is loaded — no '
+                          'verdict, run again on a quiet machine: %s' % _STATE['loaded'][:3])
 
 
 def _as_csr(g):
